@@ -82,9 +82,10 @@ GetEof(ls) == IF Variant = "eof_fixed" THEN 0 ELSE EofFrom(ls, 0)
 (* the FIRST line equal to the delimiter; with a quoted delimiter the body *)
 (* is literal, otherwise $, ` and \ are expanded.                          *)
 (***************************************************************************)
-Pre == <<TplLine(1), TplLine(2), TplLine(3)>>
-Post == <<EmptyLine, TplLine(4), TplLine(5), TplLine(6), TplLine(7), EmptyLine, TplLine(8),
-          TplLine(9), EmptyLine, TplLine(10), TplLine(11), EmptyLine>>
+\* the wrapper's own lines are opaque to every law: one line before the operator, a blank line, one
+\* line after the terminator and the final newline stand for the fourteen of the template
+Pre == <<TplLine(1)>>
+Post == <<EmptyLine, TplLine(2), EmptyLine>>
 Wrap(ls, k) == Pre \o <<OpenLine(k, IF Variant = "unquoted" THEN 0 ELSE 1)>> \o ls \o <<EofLine(k)>> \o Post
 
 Mangle(l) == IF l.sp = 1 THEN [l EXCEPT !.tok = "mangled"] ELSE l
@@ -144,8 +145,8 @@ StagingLeaves(v) == SelectSeq(IterLeaves(v), LAMBDA n : n.k = "leaf" /\ IsStagin
 Assemble(c) ==
   LET ins == IterLeaves(c.ins)
       outs == StagingLeaves(PreMap(c.outs))
-      stage == [j \in 1..Len(ins) |-> Seg(IF NeedsCopy(ins[j].t) THEN "stage" ELSE "noop", ins[j].t)]
-      unstage == [j \in 1..Len(outs) |-> Seg(IF NeedsCopy(outs[j].t) THEN "unstage" ELSE "noop", outs[j].t)]
+      stage == [j \in 1..Len(ins) |-> IF NeedsCopy(ins[j].t) THEN Seg("stage", ins[j].t) ELSE Seg("noop", 0)]
+      unstage == [j \in 1..Len(outs) |-> IF NeedsCopy(outs[j].t) THEN Seg("unstage", outs[j].t) ELSE Seg("noop", 0)]
       cd == IF c.tempdir THEN <<Seg("cd", 0)>> ELSE <<>>
   IN IF Variant = "unstage_first" THEN cd \o unstage \o stage \o <<Seg("wrap", 0)>>
      ELSE cd \o stage \o <<Seg("wrap", 0)>> \o unstage
@@ -248,27 +249,28 @@ StepPost == /\ pc = "exec" /\ ip > Len(segs)
 Run == StepPrepare \/ StepEof \/ StepWrap \/ StepExec \/ StepPost
 
 (***************************************************************************)
-(* Properties.                                                             *)
+(* Properties.  The laws are stated once, on the final state of a call     *)
+(* (everything they mention is still there); the loop bound and the        *)
+(* staging order are invariants of the intermediate states.                *)
 (***************************************************************************)
 \* the loop's variant: every earlier candidate is a line of the text, so idx <= number of lines
 EofLoopBound == pc = "eof" => idx <= Len(txt) /\ \A j \in 0..(idx - 1) : HasLine(txt, EofLine(j))
 Terminates == <>(pc = "done")
 \* the terminator never equals a line; the shell reads back exactly the prepared text
-TerminatorOK == pc \in {"exec", "done"} => LawTerminator(txt, idx) /\ LawLeast(txt, idx)
-HeredocOK == pc \in {"exec", "done"} => LawHeredoc(txt, wrp)
+TerminatorOK == pc = "done" => LawTerminator(txt, idx) /\ LawLeast(txt, idx)
+HeredocOK == pc = "done" => LawHeredoc(txt, wrp)
 \* the same two laws for the raw text (the two functions are public and take any text)
-RawOK == pc \in {"exec", "done"} => /\ LawTerminator(cas.cmd, GetEof(cas.cmd))
-                                    /\ LawHeredoc(cas.cmd, Wrap(cas.cmd, GetEof(cas.cmd)))
+RawOK == pc = "done" => /\ LawTerminator(cas.cmd, GetEof(cas.cmd))
+                        /\ LawHeredoc(cas.cmd, Wrap(cas.cmd, GetEof(cas.cmd)))
 \* exactly the dedented text, under the default shell unless it starts with a shebang
-PrepareOK == pc # "prepare" /\ pc # "start" /\ pc # "start2" =>
+PrepareOK == pc = "done" =>
                LET b == Strip(Dedent(cas.cmd)) IN
-               /\ IF b[1].tok = "shebang" THEN txt = b ELSE txt = cas.dsh \o b
-               /\ \A i \in 1..Len(b) : ~IsBlank(b[i]) => b[i].ind >= 0
+               IF b[1].tok = "shebang" THEN txt = b ELSE txt = cas.dsh \o b
 \* the executor prepares the assembled text once more (exec_script_task): that must not touch the
 \* here-document (no blank-only line survives the first preparation, the margin of the outer text
 \* is zero because the wrapper's own lines start in column one)
 OuterPrepareTransparent ==
-  pc \in {"exec", "done"} => LET outer == Prepare(wrp, cas.dsh) IN LawHeredoc(txt, outer)
+  pc = "done" => LET outer == Prepare(wrp, cas.dsh) IN LawHeredoc(txt, outer)
 \* what ran is what was written, the staging law, the shape law
 ExecutedOK == pc = "done" => world.tmp = txt /\ world.out = txt
 StagingOK == pc = "done" => LawStaging(cas, world) /\ SegContract(cas, segs)
